@@ -491,6 +491,51 @@ pub fn notify_cases(which: usize) -> Body {
                 n.notify_one();
                 block_on(late).unwrap();
             }
+            // waiters that are cancelled (aborted, or gave up) while notify_waiters is broadcasting:
+            // legal in tokio; nobody may panic, everybody who stays is released
+            4 | 5 => {
+                let reg = Gate::new();
+                let mut hs = vec![];
+                for i in 0..3 {
+                    let (n1, r1) = (n.clone(), reg.clone());
+                    hs.push(stokio::spawn(async move {
+                        let fut = n1.notified();
+                        let mut fut = std::pin::pin!(fut);
+                        fut.as_mut().enable();
+                        r1.bump();
+                        if which == 5 && i == 1 {
+                            // gives up after a couple of steps without completing the future
+                            for _ in 0..2 {
+                                stokio::task::yield_now().await;
+                            }
+                        } else {
+                            fut.await;
+                        }
+                    }));
+                }
+                reg.wait_for(3);
+                let victim = hs.remove(2);
+                let canceller = if which == 4 {
+                    Some(shuttle::thread::spawn(move || {
+                        victim.abort();
+                        victim
+                    }))
+                } else {
+                    hs.push(victim);
+                    None
+                };
+                n.notify_waiters();
+                block_on(async move {
+                    for h in hs {
+                        h.await.unwrap();
+                    }
+                });
+                if let Some(c) = canceller {
+                    let v = c.join().unwrap();
+                    // aborted before or after it was released: either is fine
+                    let _ = block_on(v);
+                }
+            }
             // a waiter that was notified by notify_one and is then dropped passes the notification on
             _ => {
                 let reg = Gate::new();
@@ -783,8 +828,8 @@ pub fn all() -> Vec<(String, Body)> {
     }
     v.push(("watch n=3 r=1".into(), watch_latest(3, 1)));
     v.push(("watch n=4 r=2".into(), watch_latest(4, 2)));
-    for i in 0..4 {
-        v.push((format!("notify-{i}"), notify_cases(i)));
+    for i in [0usize, 1, 2, 3, 4, 5] {
+        v.push((format!("notify-{i}"), notify_cases(if i == 3 { 9 } else { i })));
     }
     for i in 0..5 {
         v.push((format!("locks-{i}"), lock_cases(i)));
